@@ -335,3 +335,101 @@ CHECKS += [
 ]
 
 VALIDATE_LAYOUT_PRIMS = True  # [V] the layout primitive contracts are sampled against real torch on every run
+
+
+# ----------------------------------------------------------------------------- Conjunction._compute / Stack._compute
+
+
+def _members(cx, it, H, k, name):
+    """k abstract member transforms sharing one required key set, with pairwise disjoint duplicate-free output key lists; the
+    i-th returns a fixed Gradients dictionary g_i over its output keys (built through the real constructor)."""
+    from tjv.pyvc.interp import SymObj
+    from .C02 import disjoint_seqs
+    req = V.SymSet(cx, f"{name}.req")
+    Ks = [A.tensor_list(cx, f"{name}.K{i}", distinct=True) for i in range(k)]
+    members, gfs = [], []
+    for i in range(k):
+        d, gf = sym_gradients(cx, it, Ks[i], name=f"{name}.g{i}")
+        o = SymObj(H.repo.get(f"{TR}.base.Transform"))
+        o.attrs["required_keys"] = req
+        o.attrs["output_keys"] = P.lift_set(it, P.set_from_seq(it, Ks[i]))
+        o.calls = []
+
+        def compute(interp, inp, o=o, d=d):
+            o.calls.append(inp)
+            return d
+        o.attrs["_compute"] = V.SymMethod(compute)
+        members.append(o)
+        gfs.append(gf)
+    x = it.call(H.repo.get(f"{TR}.tensor_dict.TensorDict"), [V.SymMap(req.seq(cx), lambda t: LTen(V.TRef(t).shape, lambda ix: z3.RealVal(0)))])
+    return req, Ks, members, gfs, x
+
+
+def conj_compute_check(k):
+    def fn(H):
+        def body(cx):
+            from .C02 import disjoint_seqs
+            it = H.interp(cx, loop_specs=A.LOOPS, overrides=A.OVERRIDES)
+            req, Ks, members, gfs, x = _members(cx, it, H, k, "cj")
+            for i in range(k):
+                for j in range(i + 1, k):
+                    disjoint_seqs(cx, Ks[i], Ks[j])
+            kind, c = call_catch(lambda: it.call(H.repo.get(f"{TR}.base.Conjunction"), [list(members)]))
+            cx.oblige(f"C15.conj{k}.well_formed_members_are_accepted", kind == "return", where=str(getattr(c, "where", "")))
+            if kind != "return":
+                return
+            kind, out = call_catch(lambda: it.call(c, [x]))
+            cx.oblige(f"C15.conj{k}.no_raise", kind == "return", where=str(getattr(out, "where", "")))
+            if kind != "return":
+                return
+            cx.oblige(f"C15.conj{k}.each_member_runs_once_on_the_input", all(len(m.calls) == 1 and m.calls[0] is x for m in members))
+            cx.oblige(f"C15.conj{k}.type", out.cls.name == "Gradients")
+            y, cc = cx.fresh_const("y", A.TenS), cx.fresh_int("c")
+            member = [P.map_dom(it, V.SymMap(Ks[i], lambda tt: None))(y) for i in range(k)]
+            if isinstance(out.payload, dict) and not out.payload:
+                cx.oblige(f"C15.conj{k}.keys", z3.Not(z3.Or(member)))
+                return
+            om = P.to_symmap(it, out.payload)
+            cx.oblige(f"C15.conj{k}.keys", P.map_dom(it, om)(y) == z3.Or(member))
+            cx.assume(z3.Or(member))
+            v = om.get(y)
+            for i in range(k):
+                cx.oblige(f"C15.conj{k}.value_comes_from_member{i}", z3.Implies(member[i], v.elem([cc]) == gfs[i](y, cc)))
+        H.explore(body, max_paths=3000)
+    return Check(f"conj_compute{k}", [f"{TR}.base.Conjunction._compute", f"{TR}._utils._union", f"{TR}.base.Transform.__call__"], fn,
+                 replay_keys=["C15.", "C14.conjunction"])
+
+
+def stack_compute_check(k):
+    def fn(H):
+        def body(cx):
+            it = H.interp(cx, loop_specs=A.LOOPS, overrides=A.OVERRIDES)
+            req, Ks, members, gfs, x = _members(cx, it, H, k, "st")
+            kind, s = call_catch(lambda: it.call(H.repo.get(f"{TR}.stack.Stack"), [list(members)]))
+            cx.oblige(f"C15.stackc{k}.members_with_one_required_set_are_accepted", kind == "return", where=str(getattr(s, "where", "")))
+            if kind != "return":
+                return
+            kind, out = call_catch(lambda: it.call(s, [x]))
+            cx.oblige(f"C15.stackc{k}.no_raise", kind == "return", where=str(getattr(out, "where", "")))
+            if kind != "return":
+                return
+            cx.oblige(f"C15.stackc{k}.each_member_runs_once_on_the_input", all(len(m.calls) == 1 and m.calls[0] is x for m in members))
+            cx.oblige(f"C15.stackc{k}.type", out.cls.name == "Jacobians")
+            y, cc = cx.fresh_const("y", A.TenS), cx.fresh_int("c")
+            member = [P.map_dom(it, V.SymMap(Ks[i], lambda tt: None))(y) for i in range(k)]
+            if isinstance(out.payload, dict) and not out.payload:
+                cx.oblige(f"C15.stackc{k}.keys", z3.Not(z3.Or(member)))
+                return
+            om = P.to_symmap(it, out.payload)
+            cx.oblige(f"C15.stackc{k}.keys", P.map_dom(it, om)(y) == z3.Or(member))
+            cx.assume(z3.Or(member))
+            v = om.get(y)
+            cx.oblige(f"C15.stackc{k}.shape", z3.And(len(v.shape.lead) == 1, lift(v.shape.lead[0]) == k, v.shape.tail == V.TRef(y).shape.tail))
+            for i in range(k):
+                cx.oblige(f"C15.stackc{k}.row{i}_comes_from_member{i}", v.elem([z3.IntVal(i), cc]) == z3.If(member[i], gfs[i](y, cc), 0))
+        H.explore(body, max_paths=3000)
+    return Check(f"stack_compute{k}", [f"{TR}.stack.Stack._compute", f"{TR}.stack._stack", f"{TR}.base.Transform.__call__"], fn,
+                 replay_keys=["C15.Stack", "C02."])
+
+
+CHECKS += [conj_compute_check(2), stack_compute_check(2)]
